@@ -35,7 +35,8 @@ theorem code_m3_mul_v (a : M3 K) (v : V3 K) :
   ⟨a * v, Trace.C01.t_m3_mul_v a v, C01.M3.mulVec_eq_sum_cols a v, (C01.M3.bridge a a v).2⟩
 
 /-- the constructors as computed: scaling and translation matrices act on points and vectors as scaling by the
-given factors and displacement by the given offset; vectors are not displaced -/
+given factors and displacement by the given offset; vectors are not displaced (for the non-uniform scale only the action on
+points is stated here, not `mn.transformVector`) -/
 theorem code_m4_constructors (s x y z : K) (t : V3 K) (p : P3 K) (v : V3 K) :
     ∃ ms mn mt : M4 K,
       t_m4_from_scale (envL [s]) = .okS ms.toList ∧ t_m4_from_nonuniform_scale (envL [x, y, z]) = .okS mn.toList ∧
